@@ -241,7 +241,7 @@ class FilterSummary:
                 if isinstance(srcd, ast.Call) and call_name(srcd) in ("np.vstack", "np.concatenate", "np.append"):
                     return self._classify_removal(srcd, sub if sub is not None else name, s)
         # (d) constraint selection: idx = C <= 0 ; C = cons(X) ; X = inverse(res)
-        cs = self._constraint_mask(d, s)
+        cs = self._constraint_mask(ast.UnaryOp(op=ast.Invert(), operand=d) if neg else d, s)
         if cs is not None:
             return cs
         return Stage("select-unknown", s, {"selector": canon(sel)}, True, "row selection by an unrecognised selector (rows remain a subset)")
@@ -421,8 +421,13 @@ class FilterSummary:
             return None
         l, r = d.left, d.comparators[0]
         op = type(d.ops[0])
+        nan_loose = False
         if negated:
+            # not (C > 0) keeps the rows where C is NaN, C <= 0 drops them: the two are different filters
+            nan_loose = op in (ast.Gt, ast.GtE, ast.Lt, ast.LtE)
             op = {ast.Lt: ast.GtE, ast.LtE: ast.Gt, ast.Gt: ast.LtE, ast.GtE: ast.Lt}.get(op, op)
+        while isinstance(l, ast.Call) and call_name(l) in ("np.asarray", "np.atleast_1d", "np.array", "np.ravel") and l.args:
+            l = l.args[0]
         if const_num(l) is not None and const_num(r) is None:
             l, r = r, l
             op = {ast.Lt: ast.Gt, ast.Gt: ast.Lt, ast.LtE: ast.GtE, ast.GtE: ast.LtE}.get(op, op)
@@ -439,6 +444,8 @@ class FilterSummary:
             return Stage("constraint", s, detail, False, f"rows with C {'>=' if op is ast.GtE else '>' if op is ast.Gt else op.__name__} 0 are kept: violating candidates pass the filter")
         if not inv_ok:
             return Stage("constraint", s, detail, False, "the constraint callable is not evaluated on the inverse transform of the very rows that are selected")
+        if nan_loose:
+            return Stage("constraint", s, detail, False, "the mask is the negation of 'violated' (not (C > 0)): a row whose constraint value is NaN is neither violated nor satisfied and is kept")
         return Stage("constraint", s, detail, True, keeps)
 
     # ------------------------------------------------------------------ queries
